@@ -33,7 +33,10 @@ pub enum Echo {
     H(Obs),
 }
 impl From<StdError> for Echo {
-    fn from(_: StdError) -> Self {
+    fn from(e: StdError) -> Self {
+        // leaked on purpose: the drop glue of StdError's Backtrace (frames, symbols, io::Error ...) is
+        // symbolically executed by CBMC at every conversion and dominated whole harnesses
+        core::mem::forget(e);
         Echo::Std
     }
 }
@@ -45,7 +48,8 @@ pub enum IfaceErr {
     H(Obs),
 }
 impl From<StdError> for IfaceErr {
-    fn from(_: StdError) -> Self {
+    fn from(e: StdError) -> Self {
+        core::mem::forget(e);
         IfaceErr::Std
     }
 }
@@ -445,6 +449,15 @@ pub mod script {
         serde::forward_to_deserialize_any! { bool i8 i16 i32 i64 i128 u8 u16 u32 u64 u128 f32 f64 char str string bytes byte_buf unit unit_struct seq tuple tuple_struct map struct enum identifier ignored_any }
     }
 
+    pub struct UnitD;
+    impl<'de> de::Deserializer<'de> for UnitD {
+        type Error = DE;
+        fn deserialize_any<V: Visitor<'de>>(self, v: V) -> Result<V::Value, DE> {
+            v.visit_unit()
+        }
+        serde::forward_to_deserialize_any! { bool i8 i16 i32 i64 i128 u8 u16 u32 u64 u128 f32 f64 char str string bytes byte_buf option unit unit_struct newtype_struct seq tuple tuple_struct map struct enum identifier ignored_any }
+    }
+
     /// `{ <key>: { fields... } }` presented to `deserialize_enum`
     pub struct ED<'a> {
         pub key: &'a str,
@@ -478,8 +491,9 @@ pub mod script {
         fn unit_variant(self) -> Result<(), DE> {
             Err(DE)
         }
-        fn newtype_variant_seed<T: DeserializeSeed<'de>>(self, _s: T) -> Result<T::Value, DE> {
-            Err(DE)
+        fn newtype_variant_seed<T: DeserializeSeed<'de>>(self, s: T) -> Result<T::Value, DE> {
+            // `{ <key>: null }`: the content of a newtype variant is presented as a unit
+            s.deserialize(UnitD)
         }
         fn tuple_variant<V: Visitor<'de>>(self, _l: usize, _v: V) -> Result<V::Value, DE> {
             Err(DE)
